@@ -276,18 +276,29 @@ fn monitor(c: &Conversation, ty: usize, n_pages: usize, invariants_mode: bool, r
 }
 
 /// Depth-first enumeration of every reply script whose first symbol is `first`.
-fn dfs(setup: &Setup, op: &Op, pages: &[Page<'static>], first: u16, poll_bound: usize, invariants_mode: bool, rep: &mut Report) {
+fn dfs(setup: &Setup, op: &Op, pages: &[Page<'static>], first: u16, poll_bound: usize, invariants_mode: bool, rep: &mut Report) -> bool {
     // generous cap on conversation length: every protocol conversation is shorter than this
     let chunk_msgs: usize = pages.iter().map(|p| p.as_bytes().len().div_ceil(16)).sum::<usize>() + 1;
     let max_messages = match op {
         Op::Show | Op::LoadNext => poll_bound,
         _ => 12 + 3 * (chunk_msgs + 4) + 4,
     };
+    // no subtree of the unchanged controller comes near this; a controller that no longer stops where the protocol
+    // says so can make the reply tree explode, and then the run is already a violation
+    const CONVERSATION_BUDGET: u64 = 400_000;
+    let mut conversations = 0u64;
     let mut script = vec![first];
     loop {
-        let c = ctl::converse(op, setup.own, setup.foreign, setup.ty, pages, script.clone(), max_messages, Box::new(|_| 0));
+        // C10 ends a conversation where it leaves the protocol (the divergence is the verdict); C11 must not lean on the
+        // reference machine, so it lets the conversation run and relies on the conversation budget below
+        let c = ctl::converse(op, setup.own, setup.foreign, setup.ty, pages, script.clone(), max_messages, Box::new(|_| 0), !invariants_mode);
         monitor(&c, setup.ty, pages.len(), invariants_mode, rep);
-        if c.forced_errors > 0 {
+        conversations += 1;
+        if conversations > CONVERSATION_BUDGET {
+            rep.count("dfs_subtrees_cut_by_budget");
+            return false;
+        }
+        if c.forced_errors > 0 && c.divergence.is_none() {
             rep.count("conversations_cut_by_bound");
             if !matches!(op, Op::Show | Op::LoadNext) {
                 let mon = if invariants_mode { "trace_invariants" } else { "lockstep_refctl" };
@@ -300,10 +311,14 @@ fn dfs(setup: &Setup, op: &Op, pages: &[Page<'static>], first: u16, poll_bound: 
         script.truncate(used);
         loop {
             match script.pop() {
-                None => return,
+                None => {
+                    rep.max("largest_dfs_subtree_conversations", conversations as f64);
+                    return true;
+                }
                 Some(last) => {
                     if script.is_empty() {
-                        return; // the first symbol belongs to this shard
+                        rep.max("largest_dfs_subtree_conversations", conversations as f64);
+                        return true; // the first symbol belongs to this shard
                     }
                     if (last as usize) + 1 < N_SYMBOLS {
                         script.push(last + 1);
@@ -335,7 +350,7 @@ fn random_conversation(ctx: &Ctx, rng: &mut Rng, invariants_mode: bool, rep: &mu
     // random scripts biased towards replies that keep the conversation going
     let good: Vec<u16> = vec![S_UNCONF as u16, S_READY_RESET as u16, S_CFG_RECV as u16, S_CFG_FAIL as u16, S_PIX_RECV as u16, S_PIX_FAIL as u16, S_LOADED as u16, S_SHOWN as u16, S_LOAD_PROG as u16, S_SHOW_PROG as u16, S_SHOWING as u16, 26, 27, 28, 29, 30, 31, 38];
     let pick = Box::new(move |_d: usize| if pr.chance(4, 5) { *pr.pick(&good) } else { pr.below(N_SYMBOLS as u64) as u16 });
-    let c = ctl::converse(&op, own, foreign, ty, &pages, vec![], 400, pick);
+    let c = ctl::converse(&op, own, foreign, ty, &pages, vec![], 400, pick, false);
     let _ = ctx;
     monitor(&c, ty, pages.len(), invariants_mode, rep);
     rep.count("random_conversations");
@@ -393,8 +408,9 @@ pub fn run(ctx: &Ctx, invariants_mode: bool) -> Outcome {
             let s = &setups[j.setup];
             let mut rng = ctx.rng("pages", (j.setup * 16 + j.n_pages) as u64);
             let pages = mk_pages(s.ty, j.n_pages, &mut rng);
-            dfs(s, &j.op, &pages, j.first, poll_bound, invariants_mode, rep);
-            rep.count("dfs_subtrees_completed");
+            if dfs(s, &j.op, &pages, j.first, poll_bound, invariants_mode, rep) {
+                rep.count("dfs_subtrees_completed");
+            }
         } else {
             let mut rng = ctx.rng("random", (shard - nj) as u64);
             for _ in 0..n_random / rand_shards as u64 {
